@@ -251,6 +251,10 @@ func c19Run(c *sim.Ctx) {
 		}
 		if backlogged && pendingSize > 0 {
 			size = pendingSize // the packet that was refused is still waiting
+		} else if backlogged && i > 0 {
+			// the queue is never empty: the next packet is offered the moment the previous one was
+			// admitted (waiting here would let the bucket overflow, which is not starvation)
+			gap = 0
 		}
 		switch {
 		case gap == 0:
@@ -352,6 +356,6 @@ func init() {
 		QuickRuns:    5000,
 		ThoroughRuns: 400000,
 		Assumptions: []string{"one CPU runs the program on a bucket at a time (no concurrent in-kernel updates)", "native code generation instead of the BPF back end",
-			"backlogged = the refused packet is offered again within the time one maximum packet's worth of tokens accrues, and burst >= 2 maximum packets"},
+			"backlogged = the next packet is offered the instant the previous one was admitted, a refused packet is offered again within the time one maximum packet's worth of tokens accrues, and burst >= 2 maximum packets"},
 	})
 }
